@@ -184,22 +184,22 @@ func kvObsEqual(obs map[uint64]int, s kvSpec) bool {
 // ---------- sequential + crash job: one history ----------
 
 type kvSeqArg struct {
-	Ops   []kvOp `json:"ops"`
-	Crash bool   `json:"crash"`
-	Cap   int    `json:"cap"`
-	Nested bool  `json:"nested"`
+	Ops    []kvOp `json:"ops"`
+	Crash  bool   `json:"crash"`
+	Cap    int    `json:"cap"`
+	Nested bool   `json:"nested"`
 }
 
 type kvSeqRes struct {
-	Transitions int64               `json:"transitions"`
-	StateKeys   []string            `json:"state_keys"`
-	Images      int64               `json:"images"`
-	Nontrivial  int64               `json:"nontrivial"`
-	Raw         int64               `json:"raw"`
-	CappedEpochs int                `json:"capped_epochs"`
-	Recoveries  int64               `json:"recoveries"`
-	Viols       []*report.Violation `json:"viols"`
-	ImageKeys   []string            `json:"image_keys"`
+	Transitions  int64               `json:"transitions"`
+	StateKeys    []string            `json:"state_keys"`
+	Images       int64               `json:"images"`
+	Nontrivial   int64               `json:"nontrivial"`
+	Raw          int64               `json:"raw"`
+	CappedEpochs int                 `json:"capped_epochs"`
+	Recoveries   int64               `json:"recoveries"`
+	Viols        []*report.Violation `json:"viols"`
+	ImageKeys    []string            `json:"image_keys"`
 }
 
 func kvHist(ops []kvOp) string {
